@@ -1,0 +1,50 @@
+//go:build verif
+
+package layers
+
+// ---- C07: serializers write exactly the bytes they reserve ---------------------------------------------------------
+
+// ---- RadioTap (after fix_3: the scratch buffer is grown before every namespace) -------------------------------------
+
+//@ func radioTapReserve(buf []byte, offset uint16, n int) ([]byte, error)
+//@   props C07
+//@   requires n >= 0 && n <= 1152921504606846976
+//@   ensures result1 == nil ==> offset + n <= 65535 && len(result0) >= offset + n && len(result0) >= len(buf)
+
+//@ func (m RadioTap) SerializeTo(b gopacket.SerializeBuffer, opts gopacket.SerializeOptions) error
+//@   props C07
+//@   loop 0: invariant -1 <= rangeindex && rangeindex < len(m.Present) && offset == 8 + 4*rangeindex
+//@   loop 0: invariant len(buf) >= 4 + 4*len(m.Present) && 4 + 4*len(m.Present) <= 65535
+//@   loop 1: invariant len(buf) >= 4
+
+//@ func (m RadioTapNamespace) serializeTo(buf []byte, offset uint16, present RadioTapPresent) uint16
+//@   props C07
+//@   requires offset + 112 <= len(buf) && offset + 112 <= 65535
+
+//@ func (v VendorNamespace) serializeTo(buf []byte, offset uint16, present RadioTapPresent) uint16
+//@   props C07
+//@   requires offset + 9 + v.SkipLength <= len(buf) && offset + 9 + v.SkipLength <= 65535
+//@   ensures result <= offset + 9 + v.SkipLength
+
+// ---- DHCPv4 (after fix_4: the buffer is sized from what the option loop writes, and zeroed) --------------------------
+
+// dhcpRest(o, k): bytes occupied by the options o[k:] (the tail is clamped at 0 so that non-negativity follows from one unfolding; same value for any finite slice).
+//@ spec rec dhcpRest(o []DHCPOption, k int) int = (k < 0 || k >= len(o)) ? 0 : ((o[k].Type == 0 || o[k].Type == 255) ? 1 : 2 + len(o[k].Data)) + (dhcpRest(o, k+1) > 0 ? dhcpRest(o, k+1) : 0)
+
+//@ func (o *DHCPOption) serializedLen() int
+//@   props C07
+//@   ensures result == ((o.Type == 0 || o.Type == 255) ? 1 : 2 + len(o.Data))
+//@   modifies nothing
+
+//@ func (o *DHCPOption) encode(b []byte) error
+//@   props C07
+//@   requires len(b) >= ((o.Type == 0 || o.Type == 255) ? 1 : 2 + len(o.Data))
+//@   ensures result == nil
+
+//@ func (d *DHCPv4) SerializeTo(b gopacket.SerializeBuffer, opts gopacket.SerializeOptions) error
+//@   props C07
+//@   loop 0: invariant -1 <= rangeindex && rangeindex < len(d.Options) && 241 <= plen && plen <= 65535
+//@   loop 0: invariant dhcpRest(d.Options, rangeindex+1) >= 0
+//@   loop 0: invariant plen + dhcpRest(d.Options, rangeindex+1) == 241 + dhcpRest(d.Options, 0)
+//@   loop 2: invariant -1 <= rangeindex && rangeindex < len(d.Options) && 240 <= offset
+//@   loop 2: invariant dhcpRest(d.Options, rangeindex+1) >= 0 && offset + dhcpRest(d.Options, rangeindex+1) + 1 == len(data)
